@@ -57,3 +57,4 @@ pub assume_specification<'a, T, P: FnMut(&'a T) -> bool>[ <core::slice::Iter<'a,
                 && forall|j: int| 0 <= j < i ==> call_ensures(predicate, (&#[trigger] s[j],), false),
             None => forall|j: int| 0 <= j < s.len() ==> call_ensures(predicate, (&#[trigger] s[j],), false),
         };
+
